@@ -405,7 +405,15 @@ func (vfs *BasePathFS) Rel(basepath, targpath string) (string, error) {
 // Remove removes the named file or (empty) directory.
 // If there is an error, it will be of type *PathError.
 func (vfs *BasePathFS) Remove(name string) error {
-	err := vfs.baseFS.Remove(vfs.ToBasePath(name))
+	const op = "remove"
+
+	basePath := vfs.ToBasePath(name)
+	if basePath == vfs.basePath {
+		// The root directory of the file system is the base path of the base file system : it can't be removed.
+		return &fs.PathError{Op: op, Path: name, Err: vfs.errRootDir()}
+	}
+
+	err := vfs.baseFS.Remove(basePath)
 
 	return vfs.FromPathError(err)
 }
@@ -421,7 +429,13 @@ func (vfs *BasePathFS) RemoveAll(path string) error {
 		return nil
 	}
 
-	err := vfs.baseFS.RemoveAll(vfs.ToBasePath(path))
+	basePath := vfs.ToBasePath(path)
+	if basePath == vfs.basePath {
+		// The root directory of the file system is the base path of the base file system : it can't be removed.
+		return &fs.PathError{Op: "unlinkat", Path: path, Err: vfs.errRootDir()}
+	}
+
+	err := vfs.baseFS.RemoveAll(basePath)
 
 	return vfs.FromPathError(err)
 }
@@ -431,7 +445,15 @@ func (vfs *BasePathFS) RemoveAll(path string) error {
 // OS-specific restrictions may apply when oldpath and newpath are in different directories.
 // If there is an error, it will be of type *LinkError.
 func (vfs *BasePathFS) Rename(oldname, newname string) error {
-	err := vfs.baseFS.Rename(vfs.ToBasePath(oldname), vfs.ToBasePath(newname))
+	const op = "rename"
+
+	oldBasePath := vfs.ToBasePath(oldname)
+	if oldBasePath == vfs.basePath {
+		// The root directory of the file system is the base path of the base file system : it can't be moved.
+		return &os.LinkError{Op: op, Old: oldname, New: newname, Err: vfs.errRootDir()}
+	}
+
+	err := vfs.baseFS.Rename(oldBasePath, vfs.ToBasePath(newname))
 
 	return vfs.FromLinkError(err)
 }
